@@ -21,6 +21,8 @@ def _case(draw):
         L = dict(L)
         if L['t'] in ('linear', 'conv') and draw(st.integers(0, 3)) == 0:
             L['frozen'] = draw(st.sampled_from(['all', 'weight', 'bias']))
+        if L['t'] == 'linear' and L.get('sub') and draw(st.booleans()):
+            L['sub'] = 'gain'          # a registered Linear subclass with an extra parameter: only its weight and bias belong to K-FAC
         layers.append(L)
         if L['t'] == 'linear' and draw(st.integers(0, 2)) == 0:
             layers.append({'t': 'res_linear', 'n': L['out'], 'bias': draw(st.booleans())})
@@ -204,7 +206,7 @@ class C10(Prop):
         for name in registered:
             tmods[name].register_forward_pre_hook(lambda m, i: None)
             tmods[name].register_full_backward_hook(lambda m, gi, go: None)
-        reg_params = {f'{n}.{pn}' if n else pn for n, m in registered.items() for pn, _ in m.named_parameters()}
+        reg_params = {f'{n}.{pn}' if n else pn for n, m in registered.items() for pn, _ in m.named_parameters() if pn in ('weight', 'bias')}
         kw = dict(compute_method=case['method'], compute_eigenvalue_outer_product=case['prediv'], skip_layers=list(pats),
                   factor_dtype=kmodel.dt(case['factor_dtype']), inv_dtype=kmodel.dt(case['inv_dtype']),
                   update_factors_in_hook=case['in_hook'], kl_clip=case['kl_clip'], damping=0.05,
@@ -222,6 +224,7 @@ class C10(Prop):
                   'frozen': any('frozen' in L for L in case['spec']['layers']), 'skipped': supported_unreg > 0 and bool(pats),
                   'loss_scale': case['loss_scale'] is not None, 'n_registered': min(len(registered), 5),
                   'mem_format': case.get('mem_format', 'contiguous'), 'shared_module': case['spec'].get('alias') is not None,
+                  'extra_param_layer': any(L.get('sub') == 'gain' for L in case['spec']['layers']),
                   'factor_dtype_is_param_dtype': case['factor_dtype'] == case['param_dtype']}
         scale = case['loss_scale'] or 1.0
         accum = case.get('accum', 1)
